@@ -136,6 +136,23 @@ class AEval:
                         return False
                 return True
             raise Unknown("range pattern against %r" % (v,))
+        if k == "pslice":
+            if v[0] != "array":
+                raise Unknown("slice pattern against %r" % (v[0],))
+            before, after, mid = p.get("before") or [], p.get("after") or [], p.get("mid")
+            xs = v[1]
+            if len(xs) < len(before) + len(after) or (mid is None and len(xs) != len(before) + len(after)):
+                return False
+            for sp, sv in zip(before, xs):
+                if not self.pmatch(sp, sv, env):
+                    return False
+            for sp, sv in zip(after, xs[len(xs) - len(after):]):
+                if not self.pmatch(sp, sv, env):
+                    return False
+            if mid is not None:
+                if not self.pmatch(mid, ("array", xs[len(before):len(xs) - len(after)]), env):
+                    return False
+            return True
         raise Unknown("pattern kind " + k)
 
     def match_variant(self, v, vpath, subpats, env, ddpos=None):
@@ -280,6 +297,17 @@ class AEval:
                     if "Struct" in dk:
                         return ("newtype", f["path"], args[0] if len(args) == 1 else ("tuple", args))
                     return ("enum", f["path"], args)
+                if f["path"].startswith("core::num::<impl u") and f["path"].split("::")[-1] in ("from_be_bytes", "from_le_bytes") and len(e["args"]) == 1:
+                    a = self.ev(e["args"][0], env, depth)
+                    if a[0] == "array" and all(x[0] == "int" for x in a[1]):
+                        xs = [x[1] for x in a[1]]
+                        if f["path"].endswith("from_le_bytes"):
+                            xs = xs[::-1]
+                        n = 0
+                        for x in xs:
+                            n = (n << 8) | (x & 0xff)
+                        return ("int", n)
+                    raise Unknown("from_bytes of partially known bytes")
                 if f["path"] == "core::ops::range::RangeInclusive::<Idx>::new" and len(e["args"]) == 2:
                     a, b = [self.ev(x, env, depth) for x in e["args"]]
                     a, b = [(v[2] if v[0] == "newtype" else v) for v in (a, b)]
@@ -288,6 +316,23 @@ class AEval:
                     args = [self.ev(a, env, depth) for a in e["args"]]
                     return self.call_fn(f.get("resolved") or f["path"], args, depth + 1)
             raise Unknown("call of " + str(f.get("path")))
+        if k == "mcall" and e.get("path") and e["path"].startswith("core::num::<impl u") and e["path"].split("::")[-1] in ("to_be_bytes", "to_le_bytes"):
+            v = self.ev(e["recv"], env, depth)
+            if v[0] == "newtype":
+                v = v[2]
+            bits = int(e["path"].split("<impl u")[1].split(">")[0])
+            if v[0] != "int":
+                raise Unknown("to_bytes of a partially known integer")
+            bs = [("int", (v[1] >> (8 * i)) & 0xff) for i in range(bits // 8)]
+            return ("array", bs[::-1] if e["path"].endswith("to_be_bytes") else bs)
+        if k == "array":
+            return ("array", [self.ev(x, env, depth) for x in e["xs"]])
+        if k == "index":
+            a = self.ev(e["x"], env, depth)
+            i = self.ev(e["i"], env, depth)
+            if a[0] == "array" and i[0] == "int" and 0 <= i[1] < len(a[1]):
+                return a[1][i[1]]
+            raise Unknown("index")
         if k == "mcall" and (e.get("path") or "") in ("core::option::Option::<T>::is_some", "core::option::Option::<T>::is_none"):
             v = self.ev(e["recv"], env, depth)
             if v[0] == "enum" and v[1].startswith("core::option::Option::"):
